@@ -52,14 +52,53 @@ theorem checkAccess_ok {s s' : State} {now req sec : Nat} {need : Level}
     s' = s.cleanup now ∧ Justified (s.cleanup now) req sec need (fun _ => True) := by
   unfold State.checkAccess at h
   rw [if_neg hr] at h
-  simp only [Prod.mk.injEq] at h
-  exact ⟨h.1.symm, checkGraph_ok h.2⟩
+  split at h
+  · simp only [Prod.mk.injEq] at h; exact nomatch h.2
+  · simp only [Prod.mk.injEq] at h
+    exact ⟨h.1.symm, checkGraph_ok h.2⟩
 
-/-- the state a check leaves behind: untouched for root, `cleanup now` for anybody else -/
+/-- a requester that passes the check and is not root is not a secret-node key -/
+theorem checkAccess_ok_not_key {s : State} {now req sec : Nat} {need : Level}
+    (h : (s.checkAccess now req sec need).2 = .ok ()) (hr : req ≠ root) : isNodeKey req = false := by
+  unfold State.checkAccess at h
+  rw [if_neg hr] at h
+  cases hk : isNodeKey req with
+  | false => rfl
+  | true => rw [hk] at h; exact nomatch h
+
+/-- the state a check leaves behind: untouched for root and for a secret-node key, `cleanup now` for anybody else -/
 theorem checkAccess_fst (s : State) (now req sec : Nat) (need : Level) :
-    (s.checkAccess now req sec need).1 = if req = root then s else s.cleanup now := by
+    (s.checkAccess now req sec need).1 = if req = root then s else if isNodeKey req then s else s.cleanup now := by
   unfold State.checkAccess
-  split <;> rfl
+  split
+  · rfl
+  · split <;> rfl
+
+/-- … after a successful check by a non-root requester: `cleanup now` -/
+theorem checkAccess_fst_ok {s : State} {now req sec : Nat} {need : Level}
+    (h : (s.checkAccess now req sec need).2 = .ok ()) (hr : req ≠ root) :
+    (s.checkAccess now req sec need).1 = s.cleanup now := by
+  rw [checkAccess_fst, if_neg hr, checkAccess_ok_not_key h hr]; rfl
+
+/-- what a secret-node key gets from the three authorisation entry points: nothing, and the state is untouched -/
+theorem checkAccess_key (s : State) (now req sec : Nat) (need : Level) (hk : isNodeKey req = true) :
+    s.checkAccess now req sec need = (s, .error .denied) := by
+  have hr : req ≠ root := by
+    intro h; rw [h] at hk; revert hk; decide
+  unfold State.checkAccess
+  rw [if_neg hr, if_pos hk]
+
+theorem isNodeKey_ne_root {req : Nat} (hk : isNodeKey req = true) : req ≠ root := by
+  intro h; rw [h] at hk; revert hk; decide
+
+theorem getPermission_some {s : State} {now req sec : Nat} {p : Level}
+    (h : s.getPermission now req sec = some p) (hr : req ≠ root) :
+    isNodeKey req = false ∧ (s.cleanup now).perm req sec = some p := by
+  unfold State.getPermission at h
+  rw [if_neg hr] at h
+  cases hk : isNodeKey req with
+  | false => rw [hk] at h; exact ⟨rfl, h⟩
+  | true => rw [hk] at h; exact nomatch h
 
 theorem level_one_le (l : Level) : Level.read.toNat ≤ l.toNat := by
   cases l <;> simp [Level.toNat]
@@ -68,7 +107,11 @@ theorem hasAccess_justified {s : State} {now req sec : Nat} (h : s.hasAccess now
     Justified (s.cleanup now) req sec .read (fun _ => True) := by
   unfold State.hasAccess at h
   have h2 : ((s.cleanup now).perm req sec).isSome = true := by
-    simpa [hr] using h
+    have : req = root ∨ (isNodeKey req = false ∧ ((s.cleanup now).perm req sec).isSome = true) := by
+      simpa using h
+    rcases this with h0 | h0
+    · exact absurd h0 hr
+    · exact h0.2
   cases hp : (s.cleanup now).perm req sec with
   | none => rw [hp] at h2; cases h2
   | some p =>
@@ -150,7 +193,9 @@ theorem guarded_inv (P : State → Prop) {s : State} {now req sec : Nat} {need :
   have hfst : P (s.checkAccess now req sec need).1 := by
     rw [checkAccess_fst]; split
     · exact hs
-    · exact hc
+    · split
+      · exact hs
+      · exact hc
   rcases guarded_cases s now req sec need k with ⟨e, h⟩ | ⟨_, h⟩
   · rw [h]; exact hfst
   · rw [h]; exact hk _ hfst
@@ -167,6 +212,30 @@ theorem guarded_justified {s : State} {now req sec : Nat} {need : Level} {k : St
     (h : (s.guarded now req sec need k).2.isOk = true) (hr : req ≠ root) :
     Justified (s.cleanup now) req sec need (fun _ => True) :=
   (checkAccess_ok (s' := (s.checkAccess now req sec need).1) (by rw [← (guarded_ok h).1]) hr).2
+
+/-! ### a secret-node key as requester (refused by every entry point since ad58047e) -/
+
+theorem guarded_key (s : State) (now req sec : Nat) (need : Level) (k : State → State × Resp)
+    (hk : isNodeKey req = true) : s.guarded now req sec need k = (s, .err .denied) := by
+  unfold State.guarded; rw [checkAccess_key s now req sec need hk]
+
+theorem hasAccess_key (s : State) (now req sec : Nat) (hk : isNodeKey req = true) : s.hasAccess now req sec = false := by
+  unfold State.hasAccess
+  simp [hk, isNodeKey_ne_root hk]
+
+theorem getPermission_key (s : State) (now req sec : Nat) (hk : isNodeKey req = true) :
+    s.getPermission now req sec = none := by
+  unfold State.getPermission; rw [if_neg (isNodeKey_ne_root hk), if_pos hk]
+
+/-- `set` by a secret-node key: an error (size first, as for everybody), state untouched -/
+theorem set_key (s : State) (now req sec val size : Nat) (hk : isNodeKey req = true) :
+    ∃ e, s.set now req sec val size = (s, .err e) := by
+  unfold State.set
+  split
+  · exact ⟨_, rfl⟩
+  · split
+    · exact ⟨_, guarded_key s now req sec .write _ hk⟩
+    · rw [if_pos (isNodeKey_ne_root hk)]; exact ⟨_, rfl⟩
 
 /-! ### outcome lemmas: a successful call passed exactly the level check the code performs -/
 
@@ -269,7 +338,7 @@ theorem delegate_ok {s : State} {now parent child : Nat} {secs : List Nat} {l : 
 theorem delegate_eq_apply {s : State} {now parent child : Nat} {secs : List Nat} {l : Level} {ttl : Option Nat}
     (h : s.delegCheck now parent l secs = .ok ()) :
     s.delegate now parent child secs l ttl =
-      (if parent = root || secs.isEmpty then s else s.cleanup now).delegateApply now parent child secs
+      (if parent = root || isNodeKey parent || secs.isEmpty then s else s.cleanup now).delegateApply now parent child secs
         (s.delegEff now parent l secs) ttl := by
   unfold State.delegate
   simp only [h]
